@@ -137,6 +137,13 @@ func flight4Parse(
 			if psk, err = cfg.LocalPSKCallback(bytes.Clone(clientKeyExchange.IdentityHint)); err != nil {
 				return 0, &alert.Alert{Level: alert.Fatal, Description: alert.InternalError}, err
 			}
+			// No key for this identity (RFC 4279 Section 2: decrypt_error
+			// does not tell the peer whether the identity is known). Keying
+			// the handshake with the empty key would authenticate whoever
+			// does the same.
+			if len(psk) == 0 {
+				return 0, &alert.Alert{Level: alert.Fatal, Description: alert.DecryptError}, dtlserrors.ErrIdentityNoPSK
+			}
 			state.IdentityHint = bytes.Clone(clientKeyExchange.IdentityHint)
 			switch state.CipherSuite.KeyExchangeAlgorithm() {
 			case ciphersuite.KeyExchangeAlgorithmPsk:
